@@ -1,0 +1,50 @@
+//go:build verif
+
+package config
+
+// Contracts for govc (contract-based deductive verification, see /verif/DESIGN.md).
+// Comment-only: with the tag off this file is not compiled, with it on it adds no code.
+
+// ---- C10: command-line grammar (argParse) ----
+// well-formed FlagSet as far as argParse needs it: every name in flagMap maps to a flag
+//@ pure FS(f *FlagSet) bool = f != nil && forall k string {has(f.flagMap, k)} :: has(f.flagMap, k) ==> f.flagMap[k] != nil
+
+// grammar of one token t (the first unconsumed argument); positions are indices into t
+//@ pure isFlagTok(t string) bool = len(t) >= 2 && t[0] == '-'
+//@ pure isDashDash(t string) bool = len(t) == 2 && t[0] == '-' && t[1] == '-'
+//@ pure nd(t string) int = ite(t[1] == '-', 2, 1)
+//@ pure badTok(t string) bool = len(t) == nd(t) || t[nd(t)] == '-' || t[nd(t)] == '='
+// k is the position of the first '=' after the first byte of the name
+//@ pure eqAt(t string, k int) bool = nd(t) + 1 <= k && k < len(t) && t[k] == '=' && forall j int {t[j]} :: nd(t) + 1 <= j && j < k ==> t[j] != '='
+//@ pure noEq(t string) bool = forall j int {t[j]} :: nd(t) + 1 <= j && j < len(t) ==> t[j] != '='
+//@ pure isBool(flg *Flag) bool = implements(flg.Value, boolFlag) && cast(flg.Value, boolFlag).IsBoolFlag()
+
+//@ iface boolFlag.IsBoolFlag(v)
+//@   purefn
+//@   attr blocking no
+//@   modifies nothing
+
+//@ func (*FlagSet).argParse
+//@   requires FS(f)
+//@   modifies f.args, fields(Flag.ArgValue)
+//@   loop 1
+//@     invariant f.flagMap == old(f.flagMap)
+//@     invariant arr(f.args) == arr(old(f.args)) && off(f.args) >= off(old(f.args)) && off(f.args) + len(f.args) == off(old(f.args)) + len(old(f.args)) && cap(f.args) - len(f.args) == cap(old(f.args)) - len(old(f.args))
+//@     decreases len(f.args)
+//@     step eq.has: forall k int {f.args[0][k]} :: eqAt(f.args[0], k) ==> has(f.flagMap, f.args[0][nd(f.args[0]):k])
+//@     step eq.args: forall k int {f.args[0][k]} :: eqAt(f.args[0], k) ==> now(f.args) == f.args[1:]
+//@     step eq.value: forall k int, key string :: eqAt(f.args[0], k) && key == f.args[0][nd(f.args[0]):k] ==> now(*f.flagMap[key].ArgValue) == f.args[0][k+1:]
+//@     step bool.args: noEq(f.args[0]) && isBool(f.flagMap[f.args[0][nd(f.args[0]):]]) ==> now(f.args) == f.args[1:]
+//@     step bool.value: forall key string :: key == f.args[0][nd(f.args[0]):] && noEq(f.args[0]) && isBool(f.flagMap[key]) ==> now(*f.flagMap[key].ArgValue) == "true"
+//@     step next.args: noEq(f.args[0]) && !isBool(f.flagMap[f.args[0][nd(f.args[0]):]]) ==> len(f.args) >= 2 && now(f.args) == f.args[2:]
+//@     step next.value: forall key string :: key == f.args[0][nd(f.args[0]):] && noEq(f.args[0]) && !isBool(f.flagMap[key]) ==> now(*f.flagMap[key].ArgValue) == f.args[1]
+//@     step known: len(f.args) > 0 && isFlagTok(f.args[0]) && !isDashDash(f.args[0]) && !badTok(f.args[0]) && (noEq(f.args[0]) ==> has(f.flagMap, f.args[0][nd(f.args[0]):]))
+//@     step others: forall g *Flag {now(g.ArgValue)} :: (forall k int {f.args[0][k]} :: eqAt(f.args[0], k) ==> g != f.flagMap[f.args[0][nd(f.args[0]):k]]) && (noEq(f.args[0]) ==> g != f.flagMap[f.args[0][nd(f.args[0]):]]) ==> now(g.ArgValue) == g.ArgValue
+//@     exit stop: result == nil ==> (now(f.args) == f.args && (len(f.args) == 0 || !isFlagTok(f.args[0]))) || (len(f.args) > 0 && isDashDash(f.args[0]) && now(f.args) == f.args[1:])
+//@     exit err: result != nil ==> len(f.args) > 0 && isFlagTok(f.args[0]) && !isDashDash(f.args[0]) && (badTok(f.args[0]) || (exists k int {f.args[0][k]} :: eqAt(f.args[0], k) && !has(f.flagMap, f.args[0][nd(f.args[0]):k])) || (noEq(f.args[0]) && !has(f.flagMap, f.args[0][nd(f.args[0]):])) || (noEq(f.args[0]) && !isBool(f.flagMap[f.args[0][nd(f.args[0]):]]) && len(f.args) < 2))
+//@   loop 2
+//@     invariant f.flagMap == old(f.flagMap) && len(outer(f.args)) > 0 && f.args == outer(f.args)[1:]
+//@     invariant isFlagTok(outer(f.args[0])) && !isDashDash(outer(f.args[0])) && !badTok(outer(f.args[0])) && name == outer(f.args[0])[nd(outer(f.args[0])):]
+//@     invariant 1 <= i && i <= len(name) && forall j int {outer(f.args[0])[j]} :: nd(outer(f.args[0])) + 1 <= j && j < nd(outer(f.args[0])) + i ==> outer(f.args[0])[j] != '='
+//@     invariant forall g *Flag {g.ArgValue} :: g.ArgValue == outer(g.ArgValue)
+//@     decreases len(name) - i
